@@ -213,6 +213,8 @@ func vfC14Loop(t *testing.T, s *vfutil.Session, c *vfLCase, src string) {
 	wire, ends, ks := c.wire()
 	var samples [][3]int64
 	var samplesMu sync.Mutex
+	var startEnd int
+	var startConns map[int]bool
 	inner := strings.HasPrefix(c.fault, "inner:")
 	run := func(failAt map[int]string) (*vfdoubles.Target, int, error, *RedisOutput, vfLPoint) {
 		tg := vfdoubles.NewTarget()
@@ -257,6 +259,12 @@ func vfC14Loop(t *testing.T, s *vfutil.Session, c *vfLCase, src string) {
 		if !st.ok {
 			return tg, nSeed, fmt.Errorf("first start: %s", st.text), ro, st
 		}
+		// the start (with its recovery requests) has returned: the connections it used
+		startEnd = tg.LogLen()
+		startConns = map[int]bool{}
+		for _, e := range tg.LogCopy()[nSeed:] {
+			startConns[e.Conn] = true
+		}
 		w := wire
 		if i := vfLIndexOf(ends, st.off); i >= 0 {
 			w = wire[ends[i]-vfLStart:]
@@ -271,8 +279,14 @@ func vfC14Loop(t *testing.T, s *vfutil.Session, c *vfLCase, src string) {
 		samples = samples[:0]
 		tg.Hook = func(idx int, e vfdoubles.LogEntry) {
 			// (the hook runs on the connection goroutines, two with two lanes, outside the double's lock)
+			// The values are read first, the length of the request log after: whatever the sender counts as
+			// committed had its EXEC received (logged) before the sender saw the reply. (The index of the
+			// request that triggered the hook is NOT usable: the hook may run late, after later requests of
+			// the other lane were received and answered.)
+			sq, so := ro.bisyncSeq.Load(), ro.bisyncOffset.Load()
+			n := tg.LogLen()
 			samplesMu.Lock()
-			samples = append(samples, [3]int64{int64(idx), ro.bisyncSeq.Load(), ro.bisyncOffset.Load()})
+			samples = append(samples, [3]int64{int64(n), sq, so})
 			samplesMu.Unlock()
 			if stall != nil {
 				stall(idx, e)
@@ -327,6 +341,15 @@ func vfC14Loop(t *testing.T, s *vfutil.Session, c *vfLCase, src string) {
 		s.Violate("loop-first-start-fails", first.text, rep(nil))
 		return
 	}
+	// the recovery of the start is over before the send loop issues its first request (the split queue of
+	// Model/FrontierTraffic.lean): no connection the start used appears again once the loop runs
+	for i := startEnd; i < len(log); i++ {
+		if startConns[log[i].Conn] {
+			s.Violate("loop-recovery-overlaps-send-loop", fmt.Sprintf("request #%d (%s) comes from a connection StartPoint used, after StartPoint returned", i-nSeed, log[i].String()), rep(nil))
+			break
+		}
+	}
+	s.Count("loop_recovery_before_loop_checked")
 	startIdx := vfLIndexOf(ends, first.off)
 	if startIdx < 0 {
 		startIdx = 0
